@@ -11,6 +11,10 @@ DIM_NAMES = ["x", "y", "z", "t", "u", "v"]
 STR_LABELS = ["a", "b", "c", "d", "e", "f", "g", "h"]
 INT_LABELS = list(range(-2, 11))
 FLOAT_LABELS = [k + 0.5 for k in range(-2, 11)]
+# extended universes, used only when more labels are asked for than the small universe holds ("big" runs)
+BIG_INT_LABELS = list(range(-2, 62))
+BIG_FLOAT_LABELS = [k + 0.5 for k in range(-2, 62)]
+BIG_STR_LABELS = STR_LABELS + [a + b for a in "abcdefgh" for b in "abcdefg"]
 LABEL_KINDS = ["int", "float", "str"]
 ORDERS = ["inc", "dec", "shuf"]
 DTYPES = ["f8", "i8", "i4", "b1", "O"]
@@ -23,6 +27,8 @@ def gen_labels(rng, n, kind=None, order=None):
     kind = kind or rng.choice(LABEL_KINDS)
     order = order or rng.choice(ORDERS)
     universe = {"int": INT_LABELS, "float": FLOAT_LABELS, "str": STR_LABELS}[kind]
+    if n > len(universe):
+        universe = {"int": BIG_INT_LABELS, "float": BIG_FLOAT_LABELS, "str": BIG_STR_LABELS}[kind]
     n = min(n, len(universe))
     labs = sorted(rng.sample(universe, n))
     if order == "dec":
@@ -39,7 +45,7 @@ def gen_values(rng, shape, dtype="f8", nan_rate=0.15):
         n *= s
     flat = []
     for _ in range(n):
-        if dtype == "f8":
+        if dtype in ("f8", "f4"):
             flat.append(float("nan") if rng.random() < nan_rate else float(rng.randint(-4, 9)))
         elif dtype in ("i8", "i4"):
             flat.append(rng.randint(-4, 9))
@@ -115,7 +121,7 @@ def gen_array_spec(rng, cfg, dims=None, labels=None, dtype=None, min_rank=0):
     return spec
 
 
-NP_DTYPE = {"f8": np.float64, "i8": np.int64, "i4": np.int32, "b1": np.bool_, "O": object}
+NP_DTYPE = {"f4": np.float32, "f8": np.float64, "i8": np.int64, "i4": np.int32, "b1": np.bool_, "O": object}
 
 
 def label_array(labs):
